@@ -7,9 +7,13 @@ from ..nf import Rat, C
 from ..source import Unsupported, AnchorError
 from ..xlate import Interp, Frame, Obj, ListV, DictV, Raised, RankOrder
 from .common import same, show, coeff_vector
-from .rxnfix import species as opaque_species, set_public, make_reaction
+from .rxnfix import species as opaque_species, set_public, get_public, make_reaction
 
 Z = '\x00'
+
+
+import ast as _ast
+_GETBEP = _ast.parse('def _get_bep(r):\n    return r.bep\n').body[0]
 
 
 def text(I, key, width, cls='text'):
@@ -200,6 +204,65 @@ def phase_emitters(run, repo):
                       '%s written as %s, expected %s (mol/cm2 -> mol/m2, g/cm3 -> g/m3)'
                       % (qty, show(ListV(nums), 100), show(want, 100)), owner.module, fn,
                       sample='%s.to_cti: %s converted to the unit system' % (cn, qty))
+    # an interface with reactions, lateral interactions and BEP relations: the CTI entry names every reaction and
+    # interaction id and every BEP relation once; the YAML entry declares them (and 'none' when there are none)
+    ci = repo.cls('pmutt.omkm.phase.InteractingInterface')
+    owner_c, fn_c = repo.find_method(ci, 'to_cti')
+    owner_y, fn_y = repo.find_method(ci, 'to_omkm_yaml')
+    bepA = Obj('bepA', attrs={'name': 'bep_A'})
+    bepB = Obj('bepB', attrs={'name': 'bep_B'})
+    rx = []
+    for rid, bp in (('r_0001', bepA), ('r_0002', None), ('r_0003', bepA), ('r_0007', bepB), ('r_0008', 'absent')):
+        o_ = Obj(rid, attrs={'id': rid})
+        if bp == 'absent':
+            o_.missing.add('bep')
+        else:
+            o_.attrs['bep'] = bp
+        rx.append(o_)
+    li = [Obj(n_, attrs={'name': n_}) for n_ in ('i_0001', 'i_0002', 'i_0004')]
+    for o_ in li:
+        o_.missing.add('id')            # a lateral interaction is identified by its name
+    for with_members in (True, False):
+        kw = dict(cases[2][1], species=ListV(list(sp)))
+        if with_members:
+            kw.update({'reactions': ListV(rx), 'interactions': ListV(li)})
+        ph = fr.apply(ci, [], kw, None)
+        lab = 'with reactions, interactions, BEPs' if with_members else 'without members'
+        d = I.call_method(ph, 'to_omkm_yaml', [], {'units': u})
+        want = ('declared-species', 'declared-species', 'all') if with_members else ('none', 'none', 'none')
+        got = tuple(I.plain(d.d.get(k_)) for k_ in ('interactions', 'reactions', 'beps')) if isinstance(d, DictV) \
+            else None
+        run.check(got == want, 'DATAFLOW.phase', 'InteractingInterface.to_omkm_yaml', 'members declared [%s]' % lab,
+                  '[%s] interactions/reactions/beps are declared as %s, expected %s' % (lab, got, want),
+                  owner_y.module, fn_y)
+        out = I.call_method(ph, 'to_cti', [], {'units': u})
+        if isinstance(out, Raised) or not isinstance(out, (str, SegStr)):
+            run.fail('DATAFLOW.phase', 'InteractingInterface.to_cti', 'members [%s]' % lab, 'gives %s' % show(out, 80),
+                     owner_c.module, fn_c)
+            continue
+        lit = ''.join(s_.text if s_.kind == 'lit' else '\x01' for s_ in I.seg(out).segs)
+
+        def slot(name):
+            i_ = lit.find(name + '=')
+            if i_ < 0:
+                return None
+            rest = lit[i_ + len(name) + 1:]
+            j_ = rest.find(']')
+            return rest[:j_ + 1] if j_ >= 0 else rest
+        if with_members:
+            s_r, s_i, s_b = slot('reactions'), slot('interactions'), slot('beps')
+            ok = s_r is not None and s_i is not None and s_b is not None and \
+                all(x in s_r for x in ('r_0001', 'r_0003', 'r_0007', 'r_0008')) and 'i_000' not in s_r and \
+                all(x in s_i for x in ('i_0001', 'i_0002', 'i_0004')) and 'r_000' not in s_i and \
+                s_b.count('bep_A') == 1 and s_b.count('bep_B') == 1
+            why = 'reactions=%s interactions=%s beps=%s' % (s_r, s_i, s_b)
+        else:
+            ok = slot('beps') is None and (slot('reactions') in (None, '[]')) and (slot('interactions') in (None, '[]'))
+            why = 'reactions=%s interactions=%s beps=%s' % (slot('reactions'), slot('interactions'), slot('beps'))
+        run.check(ok, 'DATAFLOW.phase', 'InteractingInterface.to_cti', 'members [%s]' % lab,
+                  '[%s] the interface entry must name every reaction id under reactions, every interaction id under '
+                  'interactions and every BEP relation once under beps (nothing when there are none): %s' % (lab, why),
+                  owner_c.module, fn_c, sample='InteractingInterface.to_cti [%s]: %s' % (lab, why))
 
 
 def reaction_emitters(run, repo):
@@ -373,6 +436,98 @@ def other_emitters(run, repo):
               'BEP entry is %s; expected id, slope, intercept converted kcal/mol -> kJ/mol, direction and its cleavage '
               'reactions' % show(d.d if isinstance(d, DictV) else d, 240), owner.module, fn,
               sample='omkm.BEP.to_omkm_yaml: id, slope, intercept[kJ/mol], direction, reactions')
+    # the CTI form of the relation: id, slope, intercept in the activation-energy unit, direction, and each list of
+    # member reactions in its own slot
+    I2 = Interp(repo)
+    D2 = I2.D
+    fr2 = Frame(I2, repo.module('pmutt'), {}, None, None)
+    u2 = fr2.apply(repo.cls('pmutt.omkm.units.Units'), [], {'energy': 'kJ', 'quantity': 'mol', 'act_energy': 'kJ/mol'},
+                   None)
+    bid2 = text(I2, 'bepid', 5)
+    mem = {k_: Obj(k_, attrs={'id': k_}) for k_ in ('r_0001', 'r_0002', 'r_0005')}
+    bep2 = Obj('bep', bci, attrs={'name': bid2, 'slope': D2.sym('bslope'), 'intercept': D2.sym('bicpt'),
+                                  'direction': 'cleavage', 'synthesis_reactions': ListV([mem['r_0005']]),
+                                  'cleavage_reactions': ListV([mem['r_0001'], mem['r_0002']]),
+                                  'descriptor': 'delta_H'})
+    owner, fn = repo.find_method(bci, 'to_cti')
+    out = I2.call_method(bep2, 'to_cti', [], {'units': u2})
+    if isinstance(out, Raised) or not isinstance(out, (str, SegStr)):
+        run.fail('DATAFLOW.bep', 'omkm.BEP.to_cti', 'members and parameters', 'to_cti gives %s' % show(out, 80),
+                 owner.module, fn)
+    else:
+        sg = I2.seg(out)
+        lit = ''.join(s_.text if s_.kind == 'lit' else '\x01' for s_ in sg.segs)
+        nums = num_fields(I2, out)
+        texts = [f.value for f in sg.fields() if f.cls != 'num']
+        conv2 = D2.sym('U<kJ>') / D2.sym('U<kcal>')
+        i_c, i_s = lit.find('cleavage_reactions='), lit.find('synthesis_reactions=')
+        if 0 <= i_c < i_s:
+            clv, syn = lit[i_c:i_s], lit[i_s:]
+        elif 0 <= i_s < i_c:
+            syn, clv = lit[i_s:i_c], lit[i_c:]
+        else:
+            clv = syn = ''
+        ok = texts[:1] == [bid2] and eq_list(nums, [D2.sym('bslope'), D2.sym('bicpt') * conv2]) and \
+            'direction="cleavage"' in lit.replace(' ', '') and \
+            'r_0001' in clv and 'r_0002' in clv and 'r_0005' not in clv and 'r_0005' in syn and 'r_0001' not in syn \
+            and 'r_0002' not in syn
+        run.check(ok, 'DATAFLOW.bep', 'omkm.BEP.to_cti', 'members and parameters',
+                  'BEP directive is %s; expected id, slope, intercept converted kcal/mol -> kJ/mol, direction, the '
+                  'cleavage reactions r_0001, r_0002 and the synthesis reaction r_0005 each in its own list'
+                  % show(sg, 300), owner.module, fn,
+                  sample='omkm.BEP.to_cti: id, slope, intercept[kJ/mol], direction, cleavage/synthesis members')
+    # membership is established by the reactions: a SurfaceReaction whose transition state is a BEP relation registers
+    # itself with it under its own direction, once, and remembers the relation
+    I3 = Interp(repo)
+    D3 = I3.D
+    rci = repo.cls('pmutt.omkm.reaction.SurfaceReaction')
+    bep3 = I3.construct(bci, [], {'name': 'bep1', 'slope': D3.sym('bslope'), 'intercept': D3.sym('bicpt'),
+                                  'direction': 'cleavage', 'descriptor': 'delta_H'}, name='bep3')
+    other = I3.construct(bci, [], {'name': 'bep2', 'slope': D3.sym('s2'), 'intercept': D3.sym('i2'),
+                                   'direction': 'synthesis', 'descriptor': 'delta_H'}, name='bep_other')
+    owner, fn = repo.find_method(rci, '__init__')
+    if not (isinstance(bep3, Obj) and isinstance(other, Obj)):
+        run.fail('DATAFLOW.bep', 'omkm.SurfaceReaction.__init__', 'BEP membership', 'BEP constructor gives %s'
+                 % show(bep3, 80), owner.module, fn)
+        return
+    mk_sp = lambda n_: Obj(n_, attrs={'name': n_, 'elements': DictV({'H': C(1)}), 'phase': 'S'})
+    A_, B_, TS_ = mk_sp('A(S)'), mk_sp('B(S)'), mk_sp('TS(S)')
+    made = []
+    for rid, ts, direction in (('r_0001', bep3, 'cleavage'), ('r_0002', bep3, 'synthesis'), ('r_0003', TS_, 'cleavage'),
+                               ('r_0004', None, None), ('r_0005', bep3, 'cleavage'), ('r_0006', other, 'synthesis')):
+        kw = {'reactants': ListV([A_]), 'reactants_stoich': ListV([C(1)]), 'products': ListV([B_]),
+              'products_stoich': ListV([C(1)]), 'id': rid, 'direction': direction}
+        if ts is not None:
+            kw.update({'transition_state': ListV([ts]), 'transition_state_stoich': ListV([C(1)])})
+        r_ = I3.construct(rci, [], kw, name=rid)
+        made.append((rid, ts, direction, r_))
+    ok = all(isinstance(r_, Obj) for _a, _b, _c, r_ in made)
+    why = ''
+    if ok:
+        by = {rid: r_ for rid, _b, _c, r_ in made}
+        ids = lambda v: [x.name for x in v.items] if isinstance(v, ListV) else v
+        got = {'bep1.cleavage': ids(get_public(I3, bep3, 'cleavage_reactions')),
+               'bep1.synthesis': ids(get_public(I3, bep3, 'synthesis_reactions')),
+               'bep2.cleavage': ids(get_public(I3, other, 'cleavage_reactions')),
+               'bep2.synthesis': ids(get_public(I3, other, 'synthesis_reactions'))}
+        want = {'bep1.cleavage': ['r_0001', 'r_0005'], 'bep1.synthesis': ['r_0002'], 'bep2.cleavage': [],
+                'bep2.synthesis': ['r_0006']}
+        ok = got == want
+        why = 'member lists are %s, expected %s' % (got, want)
+        if ok:
+            def linked(r_):
+                # a reaction without transition state carries no such attribute at all (callers guard with try)
+                got_ = I3.call_function(repo.module('pmutt'), _GETBEP, [r_], {})
+                return None if isinstance(got_, Raised) else got_
+            links = {rid: linked(r_) for rid, r_ in by.items()}
+            wl = {'r_0001': bep3, 'r_0002': bep3, 'r_0003': None, 'r_0004': None, 'r_0005': bep3, 'r_0006': other}
+            ok = all(links[k_] is wl[k_] for k_ in wl)
+            why = 'the reactions remember %s' % {k_: getattr(v_, 'name', v_) for k_, v_ in links.items()}
+    else:
+        why = 'constructor results %s' % [show(r_, 40) for _a, _b, _c, r_ in made]
+    run.check(ok, 'DATAFLOW.bep', 'omkm.SurfaceReaction.__init__', 'BEP membership',
+              'six reactions built with a BEP relation, an ordinary species or nothing as transition state: ' + why,
+              owner.module, fn, sample='SurfaceReaction(transition_state=[bep], direction=d) -> bep.<d>_reactions')
 
 
 def emitters(run, repo):
